@@ -699,3 +699,29 @@ func prefixOf(s string) string {
 	}
 	return s
 }
+
+// Replay re-runs the whole seed-determined workload of the recorded run (schedules are
+// not reproducible; the descriptors and the race log are) and reports whether a
+// violation with the same key shows again.
+func (p c16) Replay(par *fw.Parent, v *fw.Violation) int {
+	return replayWhole(par, p.Run(par), v)
+}
+
+func replayWhole(par *fw.Parent, merged *fw.Result, v *fw.Violation) int {
+	defer os.RemoveAll(par.WorkDir)
+	n := 0
+	for _, w := range merged.Violations {
+		if w.Key == v.Key {
+			n++
+			fmt.Printf("REPRODUCED key=%s msg=%s inner=%s\n", w.Key, w.Msg, w.Inner)
+		}
+	}
+	for k, c := range merged.ViolCounts {
+		fmt.Printf("# violations key=%s count=%d\n", k, c)
+	}
+	if n == 0 {
+		fmt.Println("NOT-REPRODUCED: no violation with key " + v.Key + " in this re-run")
+		return 0
+	}
+	return 1
+}
